@@ -405,7 +405,8 @@ Definition prim_read (c : rctx) (k : prim_kind) (data : list Z) : result (value 
     else rmap (fun l => (VList l, [])) (sylt_loop (S (length data)) (c_enc c) data)
   | KKeyEvent =>
     let (cs, rest) := chunks (length data) 5 data in
-    Ok (VList (map (fun ch => vpair (VInt (signed 8 (be_decode (ztake 1 ch)))) (VInt (be_decode (zdrop 1 ch)))) cs), rest)
+    (* struct.unpack(">BI"): the event type is the unsigned byte $00..$FF of the ID3v2 event timing codes *)
+    Ok (VList (map (fun ch => vpair (VInt (be_decode (ztake 1 ch))) (VInt (be_decode (zdrop 1 ch)))) cs), rest)
   | KVolumeAdjustments =>
     let (cs, rest) := chunks (length data) 4 data in
     let m := fold_left (fun acc ch => adj_insert (be_decode (ztake 2 ch)) (signed 16 (be_decode (zdrop 2 ch))) acc) cs [] in
@@ -492,7 +493,7 @@ Definition prim_write (c : rctx) (k : prim_kind) (v : value) : result (list Z) :
              rbind (enc_text_write (c_enc c) t) (fun b => rmap (app b) (pack_u 4 tm)))))))
   | KKeyEvent =>
     rbind (as_list v) (rconcat (fun e => rbind (as_int_pair e) (fun '(a, b) =>
-      rbind (pack_s 1 a) (fun x => rmap (app x) (pack_u 4 b)))))
+      rbind (pack_u 1 a) (fun x => rmap (app x) (pack_u 4 b)))))
   | KVolumeAdjustments =>
     rbind (as_list v) (fun l => rbind (rmapM as_int_pair l) (fun ps =>
       rconcat (fun p : Z * Z => rbind (pack_u 2 (fst p)) (fun x => rmap (app x) (pack_s 2 (snd p)))) (pair_sort ps)))
@@ -591,7 +592,7 @@ Definition prim_valid (c : rctx) (k : prim_kind) (v : value) : bool :=
     | _ => false
     end
   | KKeyEvent =>
-    match v with VList l => negb (is_nil l) && all_int_pairs (fun a b => in_range (-128) 127 a && in_range 0 4294967295 b) l | _ => false end
+    match v with VList l => negb (is_nil l) && all_int_pairs (fun a b => in_range 0 255 a && in_range 0 4294967295 b) l | _ => false end
   | KVolumeAdjustments =>
     match v with
     | VList l => negb (is_nil l) && all_int_pairs (fun a b => in_range 0 65535 a && in_range (-32768) 32767 b) l &&
